@@ -99,6 +99,11 @@ def run_one(sid, tier="quick"):
 
 # fixes whose reversal no longer breaks the property because a later fix covers the same ground
 SUPERSEDED = {
+    "79b6fe7": {"expect_quiet": True, "checks": ["C01"],
+                "superseded": "Table.__copy__ is redundant since 3fef9e3 gave Vector (and so Table) a __copy__ that is copy()"},
+    "ecf7e90": {"expect_quiet": True, "checks": ["C01"],
+                "superseded": "the __getattr__ guard for half-built instances is no longer needed for t == t / copy.copy / deepcopy since "
+                              "3fef9e3 defines __copy__ / __deepcopy__ (which never create a half-built instance); it still protects pickle"},
     "2e20a38": {"expect_quiet": True, "checks": ["C01"],
                 "superseded": "the table-level writability pre-check is redundant since ff19998: Table.__setitem__ now rolls every "
                               "column back on ANY exception, AliasError included, so reverting the pre-check no longer leaves a partial write"},
